@@ -285,7 +285,7 @@ def run(prop, tier, seed, verdict):
                 verdict.violation({"clause": "runner-crash"}, {"ops": full_ops, "got": gl[:5]}, False)
             continue
         # ---- replay the script for the independent expectation
-        sounding, ext = set(), set()
+        sounding, ext, sounding_cp = set(), set(), set()
         st = None
         for op, got in zip(["led.start"] + body, gl):
             t = op.split()
@@ -297,10 +297,12 @@ def run(prop, tier, seed, verdict):
                 for tok in toks_:
                     if len(tok) == 6:
                         a, b, c = int(tok[0:2], 16), int(tok[2:4], 16), int(tok[4:6], 16)
+                        # per (channel, pitch): the same pitch can sound on two channels (channel offsets) and stop on one
                         if a >> 4 == 9 and c > 0:
-                            sounding.add(b)
+                            sounding_cp.add((a & 15, b))
                         elif a >> 4 == 8 or (a >> 4 == 9 and c == 0):
-                            sounding.discard(b)
+                            sounding_cp.discard((a & 15, b))
+                sounding = {n for _, n in sounding_cp}
             elif t[0] == "midiin":
                 a, b, c = int(t[1][0:2], 16), int(t[1][2:4], 16), int(t[1][4:6], 16)
                 if a >> 4 == 9 and c > 0:
